@@ -438,17 +438,17 @@ sim::CaseResult ConcSim::run(const sim::Options &, const Json &plan)
             if (k == 0 && tid != 0)
             {
                 ptc.terminate();
-                terminated.store(true);
+                terminated.store(true, std::memory_order_relaxed);
             }
             else
             {
-                bool was = terminated.load();
+                bool was = terminated.load(std::memory_order_relaxed);
                 bool v = ptc();
                 if (was && !v)
                     me.error = "eval() false after terminate() from another thread had returned";
             }
         }
-        touched[tid % 16].store(1);
+        touched[tid % 16].store(1, std::memory_order_relaxed);
     };
 
     ss::Config cfg;
